@@ -21,7 +21,7 @@ for m in "${names[@]}"; do
     VERIF_NO_MIRI=1 TRY_LINES=2 timeout 3000 tools/try_mutant.sh /verif/seeded/$m/patch.diff $prop > /tmp/mm.out 2>&1
     rc=$(grep -o 'exit=[0-9]*' /tmp/mm.out | tail -1 | cut -d= -f2)
   fi
-  if [ "$rc" = "0" ] && grep -q "\"$prop\"" <<< '"C01" "C07" "C13" "C16" "C17" "C18"'; then
+  if [ "$rc" = "0" ] && grep -q "\"$prop\"" <<< '"C01" "C06" "C07" "C13" "C16" "C17" "C18"'; then
     TRY_LINES=3 timeout 3000 tools/try_mutant.sh /verif/seeded/$m/patch.diff $prop > /tmp/mm.out 2>&1
     rc=$(grep -o 'exit=[0-9]*' /tmp/mm.out | tail -1 | cut -d= -f2); eng=A+miri
   fi
